@@ -721,6 +721,9 @@ pub fn run_case(case: &Value, lex: &Lex) -> RunResult {
                 pending = None;
                 trace.push(json!({"ev": "restart"}));
             }
+            // an emit whose writer fails: the front half of FileSet::emit, not reachable
+            // through VerifWorker (replayed by the production run); no effect by specification
+            "fmtfail" => {}
             other => tool_error(&format!("unknown op {other}")),
         }
     }
@@ -1223,6 +1226,9 @@ pub mod inj {
         let fault_kind = scen["fault"]["kind"].as_str().unwrap().to_string();
         let fault_at = scen["fault"]["at"].as_u64().unwrap() as usize;
         let stall = scen["stall"].as_u64().unwrap() as usize;
+        let wfail_every = scen["wfail"]["every"].as_i64().unwrap_or(0);
+        let wfail_kind = scen["wfail"]["kind"].as_str().unwrap_or("none").to_string();
+        let wfail_partial = wfail_kind == "partial";
 
         let trace: Trace = Default::default();
         let gate = Arc::new(StallGate::default());
@@ -1268,10 +1274,18 @@ pub mod inj {
             max_files,
             max_size,
             b"\n",
-            |buf, evt| {
+            move |buf, evt| {
                 use emit::Props;
                 let e = evt.props().pull::<i64, _>("id").unwrap_or(0);
                 let bytes = ev_bytes(e);
+                if wfail_every > 0 && e % wfail_every == 0 {
+                    // this event cannot be formatted: the writer fails, before any output or
+                    // after all of the payload but its last byte and separator
+                    if wfail_partial {
+                        buf.extend_from_slice(&bytes[..bytes.len() - 2]);
+                    }
+                    return Err(io::Error::new(io::ErrorKind::Other, "cannot format"));
+                }
                 if e % 2 == 0 {
                     // this writer leaves the separator to the emitter for every second event
                     buf.extend_from_slice(&bytes[..bytes.len() - 1]);
@@ -1299,6 +1313,7 @@ pub mod inj {
         let mut hs = Vec::new();
         for (t, plan) in plans.into_iter().enumerate() {
             let (files, trace, emitted, nflush, slot) = (files.clone(), trace.clone(), emitted.clone(), nflush.clone(), in_emit[t].clone());
+            let wfail_kind = wfail_kind.clone();
             let mut trng = Rng(rng.next());
             hs.push(std::thread::spawn(move || {
                 for (k, e) in plan.into_iter().enumerate() {
@@ -1315,7 +1330,11 @@ pub mod inj {
                     slot.0.store(epoch.elapsed().as_micros() as u64 + 1, Ordering::SeqCst);
                     files.emit(emit::evt!("e", id: e));
                     slot.0.store(0, Ordering::SeqCst);
-                    log(&trace, json!({"ev": "Emit", "e": e}));
+                    if wfail_every > 0 && e % wfail_every == 0 {
+                        log(&trace, json!({"ev": "FormatFail", "e": e, "kind": wfail_kind}));
+                    } else {
+                        log(&trace, json!({"ev": "Emit", "e": e}));
+                    }
                     if let Some(n) = metric(&files, "file_queue_length") {
                         log(&trace, json!({"ev": "QLen", "n": n}));
                     }
@@ -1389,7 +1408,8 @@ pub mod inj {
         }
         let _ = fin.join();
         let truncated = metric(&files, "file_queue_full_truncated").unwrap_or(usize::MAX >> 8);
-        log(&trace, json!({"ev": "Fin", "truncated": truncated}));
+        let format_failed = metric(&files, "event_format_failed").unwrap_or(usize::MAX >> 8);
+        log(&trace, json!({"ev": "Fin", "truncated": truncated, "formatFailed": format_failed}));
         // shut the worker down before the next scenario
         drop(files);
         let t = Instant::now();
@@ -1449,5 +1469,487 @@ pub mod inj {
         emit_batcher::verif::install(None);
         std::fs::write(&args[3], serde_json::to_string(&json!({"scenarios": index.len(), "events": events, "emits": emits,
             "flushes": flushes, "index": index})).unwrap()).unwrap();
+    }
+}
+
+// ------------------------------------------------------------------------------------------
+// production run: the cases TLC generated from spec/FileWorker.tla (fault-free, one event per
+// batch, restarts, emits whose writer fails) on the REAL FileSet built through the PUBLIC
+// entry points (set / set_with_writer / FileSetBuilder::writer) over the REAL filesystem,
+// system clock and rng.  Nothing is injected, so the filesystem calls are not seen: after
+// every flush the directory is read back and the effect of the batch (files removed,
+// created, bytes appended) is turned into the level-A events of spec/FileSetTrace.tla,
+// which TLC decides (every run, not only differing ones).
+
+pub mod prod {
+    use super::*;
+    use emit::Emitter;
+    use std::time::{Duration, SystemTime, UNIX_EPOCH};
+
+    /// length of a record of the default JSON writer for the events used here (ids 1..9);
+    /// MC_EvSizeJson in spec/MCFileSetTrace.tla
+    pub const JSON_LEN: usize = 40;
+
+    fn json_line(e: i64) -> Vec<u8> {
+        format!("{{\"mdl\":\"vh\",\"msg\":\"e\",\"tpl\":\"e\",\"id\":{e}}}\n").into_bytes()
+    }
+
+    struct Unstreamable;
+    impl sval::Value for Unstreamable {
+        fn stream<'sval, S: sval::Stream<'sval> + ?Sized>(&'sval self, _: &mut S) -> sval::Result {
+            sval::error()
+        }
+    }
+
+    /// (year, month, day, hour, minute, millis into the minute) of a unix time, UTC
+    fn civil(unix_ms: u128) -> (i64, u32, u32, u32, u32, u64) {
+        let secs = (unix_ms / 1000) as i64;
+        let days = secs.div_euclid(86400);
+        let rem = secs.rem_euclid(86400);
+        // Howard Hinnant's civil_from_days
+        let z = days + 719468;
+        let era = z.div_euclid(146097);
+        let doe = z.rem_euclid(146097);
+        let yoe = (doe - doe / 1460 + doe / 36524 - doe / 146096) / 365;
+        let y = yoe + era * 400;
+        let doy = doe - (365 * yoe + yoe / 4 - yoe / 100);
+        let mp = (5 * doy + 2) / 153;
+        let d = (doy - (153 * mp + 2) / 5 + 1) as u32;
+        let m = (if mp < 10 { mp + 3 } else { mp - 9 }) as u32;
+        let y = if m <= 2 { y + 1 } else { y };
+        ((y), m, d, (rem / 3600) as u32, ((rem % 3600) / 60) as u32, ((rem % 60) as u64) * 1000 + (unix_ms % 1000) as u64)
+    }
+
+    /// (period text, milliseconds into the period) for a roll period
+    fn period_of(roll: VerifRollBy, unix_ms: u128) -> (String, u64) {
+        let (y, m, d, h, mi, ms_in_min) = civil(unix_ms);
+        match roll {
+            VerifRollBy::Minute => (format!("{y:04}-{m:02}-{d:02}-{h:02}-{mi:02}"), ms_in_min),
+            VerifRollBy::Hour => (format!("{y:04}-{m:02}-{d:02}-{h:02}"), mi as u64 * 60_000 + ms_in_min),
+            VerifRollBy::Day => (format!("{y:04}-{m:02}-{d:02}"), (h as u64 * 60 + mi as u64) * 60_000 + ms_in_min),
+        }
+    }
+
+    fn now_ms() -> u128 {
+        SystemTime::now().duration_since(UNIX_EPOCH).unwrap().as_millis()
+    }
+
+    type Snapshot = BTreeMap<String, Vec<u8>>;
+
+    fn snapshot(dir: &Path) -> Snapshot {
+        let mut out = BTreeMap::new();
+        if let Ok(rd) = std::fs::read_dir(dir) {
+            for e in rd.flatten() {
+                if let (Some(name), Ok(bytes)) = (e.file_name().to_str().map(|s| s.to_string()), std::fs::read(e.path())) {
+                    out.insert(name, bytes);
+                }
+            }
+        }
+        out
+    }
+
+    /// a parsed own name: (period text, counter, id) - or None when it is not of the form
+    /// prefix.period.<8 digits>.<8 hex digits>.ext
+    fn parse_name(lex: &Lex, name: &str) -> Option<(String, u64, u32)> {
+        let rest = name.strip_prefix(lex.prefix)?.strip_prefix('.')?;
+        let rest = rest.strip_suffix(lex.ext)?.strip_suffix('.')?;
+        let parts: Vec<&str> = rest.split('.').collect();
+        if parts.len() != 3 || parts[1].len() != 8 || parts[2].len() != 8 {
+            return None;
+        }
+        if !parts[1].bytes().all(|b| b.is_ascii_digit()) || !parts[2].bytes().all(|b| b.is_ascii_digit() || (b'a'..=b'f').contains(&b)) {
+            return None;
+        }
+        Some((parts[0].to_string(), parts[1].parse().ok()?, u32::from_str_radix(parts[2], 16).ok()?))
+    }
+
+    fn tokens_json(mut b: &[u8]) -> Vec<i64> {
+        let mut out = Vec::new();
+        while !b.is_empty() {
+            match b.iter().position(|c| *c == b'\n') {
+                Some(0) => {
+                    out.push(0);
+                    b = &b[1..];
+                }
+                Some(i) => {
+                    let line = &b[..=i];
+                    out.push((1..=9).find(|e| json_line(*e) == line).unwrap_or(GARBAGE));
+                    b = &b[i + 1..];
+                }
+                None => {
+                    out.push(GARBAGE);
+                    break;
+                }
+            }
+        }
+        out
+    }
+
+    /// what one flush interval did to the directory
+    struct Interval {
+        kind: &'static str, // "batch" | "fmtfail" | "restart"
+        evs: Vec<i64>,
+        t_before: u128,
+        t_after: u128,
+        removed: Vec<String>,
+        created: Vec<String>,
+        /// (file, appended tokens) - Garbage when a file was rewritten rather than appended to
+        appended: Vec<(String, Vec<i64>)>,
+        foreign_touched: Vec<String>,
+        flushed: bool,
+    }
+
+    pub struct ProdResult {
+        pub trace: Vec<Value>,
+        pub json: bool,
+        pub final_tokens: Vec<Vec<i64>>,
+        pub flush_failed: bool,
+        pub tie: bool,
+        pub retry: bool,
+        pub ops: Vec<String>,
+    }
+
+    pub fn run_prod(case: &Value, entry: usize, scratch: &Path) -> ProdResult {
+        let lexes = lexes();
+        let lex = lexes[entry % lexes.len()].clone();
+        let json = entry % 3 == 2;
+        let max_files = case["maxFiles"].as_u64().unwrap() as usize;
+        let model_max = case["maxSize"].as_u64().unwrap() as usize;
+        // the default writer's records are JSON_LEN bytes: the limits become "always over",
+        // "two records (and a separator)", "never"
+        let max_size = if !json { model_max } else { match model_max { 1 => 1, 8 => 2 * JSON_LEN + 2, _ => 100_000 } };
+        let reuse = case["reuse"].as_bool().unwrap();
+        let _ = std::fs::remove_dir_all(scratch);
+        let dir = scratch.join(lex.dir);
+        std::fs::create_dir_all(&dir).unwrap_or_else(|e| tool_error(&format!("mkdir {dir:?}: {e}")));
+        for f in &lex.foreign {
+            std::fs::write(dir.join(f), format!("foreign {f}\n")).unwrap();
+        }
+        let template = dir.join(format!("{}.{}", lex.prefix, lex.ext));
+        let spawn = || -> emit_file::FileSet {
+            let writer = |buf: &mut emit_file::FileBuf, evt: &emit::Event<&dyn emit::props::ErasedProps>| -> io::Result<()> {
+                use emit::Props;
+                let e = evt.props().pull::<i64, _>("id").unwrap_or(0);
+                let fail = evt.props().pull::<i64, _>("fail").unwrap_or(0);
+                if fail == 2 {
+                    // the writer fails after part of its output
+                    buf.extend_from_slice(b"##");
+                }
+                if fail != 0 {
+                    return Err(io::Error::new(io::ErrorKind::Other, "cannot format"));
+                }
+                let bytes = ev_bytes(e);
+                if e % 2 == 0 {
+                    buf.extend_from_slice(&bytes[..bytes.len() - 1]);
+                } else {
+                    buf.extend_from_slice(&bytes);
+                }
+                Ok(())
+            };
+            let b = match entry % 3 {
+                0 => emit_file::set_with_writer(&template, writer, b"\n"),
+                1 => emit_file::set(&template).writer(writer, b"\n"),
+                _ => emit_file::set(&template),
+            };
+            let b = match lex.roll {
+                VerifRollBy::Minute => b.roll_by_minute(),
+                VerifRollBy::Hour => b.roll_by_hour(),
+                VerifRollBy::Day => b.roll_by_day(),
+            };
+            b.reuse_files(reuse).max_files(max_files).max_file_size_bytes(max_size).spawn()
+        };
+        let mut files: Option<emit_file::FileSet> = None;
+        let mut prev = snapshot(&dir);
+        let mut intervals: Vec<Interval> = Vec::new();
+        let mut ops: Vec<String> = Vec::new();
+        let unstreamable = Unstreamable;
+        let (p_start, _) = period_of(lex.roll, now_ms());
+        for op in case["hist"].as_array().unwrap() {
+            let kind = op["op"].as_str().unwrap();
+            match kind {
+                "restart" => {
+                    files = None;
+                    ops.push("restart".into());
+                    intervals.push(Interval { kind: "restart", evs: vec![], t_before: 0, t_after: 0, removed: vec![], created: vec![], appended: vec![], foreign_touched: vec![], flushed: true });
+                    continue;
+                }
+                "batch" | "fmtfail" => {}
+                other => tool_error(&format!("production run cannot perform {other}")),
+            }
+            let f = files.get_or_insert_with(&spawn);
+            let t_before = now_ms();
+            let mut evs = Vec::new();
+            if kind == "batch" {
+                for c in op["calls"].as_array().unwrap() {
+                    let name = c[0].as_str().unwrap();
+                    ops.push(if name == "write" && c[2] == 0 { "write-sep".to_string() } else { name.to_string() });
+                }
+                for e in op["evs"].as_array().unwrap() {
+                    let e = e.as_i64().unwrap();
+                    evs.push(e);
+                    f.emit(emit::Event::new(emit::Path::new_raw("vh"), emit::Template::literal("e"), emit::Empty, ("id", e)));
+                }
+            } else {
+                let partial = op["kind"] == "partial";
+                ops.push(format!("fmtfail-{}", if partial { "partial" } else { "empty" }));
+                if json {
+                    // the default writer fails when a value cannot be streamed: after the
+                    // preceding properties ("partial") or as the first property ("empty" is
+                    // not reachable with it: the record's head is always written first)
+                    f.emit(emit::Event::new(
+                        emit::Path::new_raw("vh"),
+                        emit::Template::literal("e"),
+                        emit::Empty,
+                        [("id", emit::Value::from(9i64)), ("bad", emit::Value::from_sval(&unstreamable))],
+                    ));
+                } else {
+                    f.emit(emit::Event::new(
+                        emit::Path::new_raw("vh"),
+                        emit::Template::literal("e"),
+                        emit::Empty,
+                        [("id", 9i64), ("fail", if partial { 2i64 } else { 1i64 })],
+                    ));
+                }
+            }
+            let flushed = f.blocking_flush(Duration::from_secs(20));
+            let t_after = now_ms();
+            let now = snapshot(&dir);
+            let mut iv = Interval { kind: if kind == "batch" { "batch" } else { "fmtfail" }, evs, t_before, t_after, removed: vec![], created: vec![], appended: vec![], foreign_touched: vec![], flushed };
+            for (name, old) in &prev {
+                let is_foreign = lex.foreign.contains(name);
+                match now.get(name) {
+                    None if is_foreign => iv.foreign_touched.push(name.clone()),
+                    None => iv.removed.push(name.clone()),
+                    Some(new) if new == old => {}
+                    Some(_) if is_foreign => iv.foreign_touched.push(name.clone()),
+                    Some(new) => {
+                        let toks = if new.starts_with(old) {
+                            if json { tokens_json(&new[old.len()..]) } else { tokens_of(&new[old.len()..]) }
+                        } else {
+                            vec![GARBAGE]
+                        };
+                        iv.appended.push((name.clone(), toks));
+                    }
+                }
+            }
+            for (name, new) in &now {
+                if !prev.contains_key(name) {
+                    iv.created.push(name.clone());
+                    if !new.is_empty() {
+                        iv.appended.push((name.clone(), if json { tokens_json(new) } else { tokens_of(new) }));
+                    }
+                }
+            }
+            prev = now;
+            intervals.push(iv);
+        }
+        drop(files);
+        let (p_end, _) = period_of(lex.roll, now_ms());
+
+        // project the names: periods in text order, counters ranked within their period, ids
+        // ranked within their (period, counter)
+        let mut parsed: BTreeMap<String, (String, u64, u32)> = BTreeMap::new();
+        for iv in &intervals {
+            for n in iv.created.iter().chain(iv.removed.iter()).chain(iv.appended.iter().map(|a| &a.0)) {
+                if let Some(p) = parse_name(&lex, n) {
+                    parsed.insert(n.clone(), p);
+                }
+            }
+        }
+        let mut periods: Vec<String> = parsed.values().map(|p| p.0.clone()).collect();
+        for iv in &intervals {
+            if iv.kind != "restart" {
+                periods.push(period_of(lex.roll, iv.t_before).0);
+                periods.push(period_of(lex.roll, iv.t_after).0);
+            }
+        }
+        periods.sort();
+        periods.dedup();
+        let pidx = |p: &str| periods.iter().position(|x| x == p).unwrap() as i64 + 1;
+        let name_int = |n: &str| -> i64 {
+            if let Some(i) = lex.foreign.iter().position(|f| f == n) {
+                return -(i as i64) - 1;
+            }
+            let Some((p, c, id)) = parsed.get(n) else { return UNKNOWN };
+            let mut counters: Vec<u64> = parsed.values().filter(|x| &x.0 == p).map(|x| x.1).collect();
+            counters.sort();
+            counters.dedup();
+            let mut ids: Vec<u32> = parsed.values().filter(|x| &x.0 == p && x.1 == *c).map(|x| x.2).collect();
+            ids.sort();
+            ids.dedup();
+            let (ci, ii) = (counters.iter().position(|x| x == c).unwrap(), ids.iter().position(|x| x == id).unwrap());
+            if ci > 9 || ii > 9 {
+                tool_error("production run: more than ten files in a period");
+            }
+            pidx(p) * 100 + ci as i64 * 10 + ii as i64
+        };
+
+        let mut trace = Vec::new();
+        let mut flush_failed = false;
+        let mut last_ms = 0i64;
+        for iv in &intervals {
+            if iv.kind == "restart" {
+                trace.push(json!({"ev": "restart"}));
+                continue;
+            }
+            flush_failed |= !iv.flushed;
+            let changed = !(iv.removed.is_empty() && iv.created.is_empty() && iv.appended.is_empty() && iv.foreign_touched.is_empty());
+            if iv.kind == "fmtfail" && !changed {
+                continue; // the event was discarded as a whole: nothing to see
+            }
+            // the clock reading of this call: the period the real clock was in; the counter of
+            // the file created now if it lies between the two readings of the harness's clock
+            let (pb, msb) = period_of(lex.roll, iv.t_before);
+            let (pa, msa) = period_of(lex.roll, iv.t_after);
+            let mut p = pidx(&pb);
+            let mut ms = last_ms;
+            if let Some(n) = iv.created.iter().find(|n| parsed.contains_key(*n)) {
+                let (pt, c, _) = &parsed[n];
+                let ok = if pb == pa { *pt == pb && *c + 1 >= msb && *c <= msa + 1 } else { *pt == pb || *pt == pa };
+                let ni = name_int(n);
+                if ok {
+                    p = ni / 100;
+                    ms = (ni / 10) % 10;
+                } else {
+                    // not the reading of the system clock: NameIs decides
+                    p = pidx(&pb);
+                    ms = ((ni / 10) % 10 + 1) % 10;
+                }
+                last_ms = (ni / 10) % 10;
+            }
+            let bytes: usize = iv.evs.iter().map(|e| if json { JSON_LEN } else { EV_SIZE[(*e - 1) as usize] }).sum();
+            trace.push(json!({"ev": "begin", "evs": iv.evs, "bytes": bytes, "p": p, "ms": ms}));
+            let call = |op: &str, n: i64, tok: i64| json!({"ev": "call", "op": op, "n": n, "tok": tok, "res": "ok"});
+            for f in &iv.foreign_touched {
+                trace.push(call("write", name_int(f), GARBAGE));
+            }
+            let mut removed: Vec<i64> = iv.removed.iter().map(|n| name_int(n)).collect();
+            removed.sort();
+            for n in removed {
+                trace.push(call("remove", n, 0));
+            }
+            for n in &iv.created {
+                trace.push(call("opennew", name_int(n), 0));
+                trace.push(call("syncdir", NONE, 0));
+            }
+            for (n, toks) in &iv.appended {
+                for t in toks {
+                    trace.push(call("write", name_int(n), *t));
+                }
+                trace.push(call("sync", name_int(n), 0));
+            }
+            trace.push(json!({"ev": "end", "res": if iv.flushed { "ok" } else { "noretry" }, "rest": []}));
+        }
+        let mut final_tokens: Vec<(i64, Vec<i64>)> = prev
+            .iter()
+            .filter(|(n, _)| !lex.foreign.contains(*n))
+            .map(|(n, b)| (name_int(n), if json { tokens_json(b) } else { tokens_of(b) }))
+            .collect();
+        final_tokens.sort();
+        // two files created in the same millisecond are ordered by their random ids (finding
+        // F15): level B's prediction (ids ascending) need not apply, level A still decides
+        let mut ticks: Vec<(&String, u64)> = parsed.values().map(|x| (&x.0, x.1)).collect();
+        ticks.sort();
+        let tie = ticks.windows(2).any(|w| w[0] == w[1]);
+        ProdResult { tie, trace, json, final_tokens: final_tokens.into_iter().map(|x| x.1).collect(), flush_failed, retry: p_start != p_end, ops }
+    }
+
+    /// args: <cases.ndjson> <traces-bytes.ndjson> <traces-json.ndjson> <report.json> <scratch dir> <threads>
+    pub fn main_prod() {
+        use std::io::{BufRead, Write};
+        let args: Vec<String> = std::env::args().collect();
+        if args.len() < 7 {
+            tool_error("usage: <cases.ndjson> <traces-bytes.ndjson> <traces-json.ndjson> <report.json> <scratch dir> <threads>");
+        }
+        let nthreads: usize = args[6].parse().unwrap_or(4);
+        quiet_panics();
+        if JSON_LEN != json_line(1).len() {
+            tool_error("JSON_LEN does not match the reference record");
+        }
+        // 1 ms of channel delay (idle polling) lasts 2 us; the filesystem, clock and rng are the real ones
+        emit_batcher::verif::set_delay_scale(2_000);
+        let lines: Vec<String> = io::BufReader::new(std::fs::File::open(&args[1]).unwrap_or_else(|e| tool_error(&format!("open: {e}"))))
+            .lines()
+            .map(|l| l.unwrap())
+            .filter(|l| !l.trim().is_empty())
+            .collect();
+        let scratch = PathBuf::from(&args[5]);
+        let results: Vec<Vec<(usize, usize, ProdResult, Value)>> = std::thread::scope(|sc| {
+            let mut hs = Vec::new();
+            for t in 0..nthreads {
+                let (lines, scratch) = (&lines, scratch.clone());
+                hs.push(sc.spawn(move || {
+                    let mut out = Vec::new();
+                    for (i, text) in lines.iter().enumerate() {
+                        if i % nthreads != t {
+                            continue;
+                        }
+                        let case: Value = serde_json::from_str(text).unwrap_or_else(|e| tool_error(&format!("bad json: {e}")));
+                        for entry in 0..3 {
+                            let d = scratch.join(format!("c{i}-{entry}"));
+                            let mut r = run_prod(&case, entry, &d);
+                            let mut tries = 0;
+                            while r.retry && tries < 3 {
+                                // the real clock left its period during the run: the case assumes it stays
+                                r = run_prod(&case, entry, &d);
+                                tries += 1;
+                            }
+                            let _ = std::fs::remove_dir_all(&d);
+                            out.push((i + 1, entry, r, case.clone()));
+                        }
+                    }
+                    out
+                }));
+            }
+            hs.into_iter().map(|h| h.join().unwrap_or_else(|_| tool_error("production thread panicked"))).collect()
+        });
+        let mut tb = io::BufWriter::new(std::fs::File::create(&args[2]).unwrap());
+        let mut tj = io::BufWriter::new(std::fs::File::create(&args[3]).unwrap());
+        let mut index = Vec::new();
+        let mut ops: BTreeMap<String, u64> = BTreeMap::new();
+        let (mut runs, mut flush_failed, mut skipped, mut pred_mismatch) = (0u64, 0u64, 0u64, 0u64);
+        let entries = ["set_with_writer", "set().writer()", "set() default JSON writer"];
+        let mut mismatches: Vec<Value> = Vec::new();
+        for (line, entry, r, case) in results.into_iter().flatten() {
+            if r.retry {
+                skipped += 1;
+                continue;
+            }
+            runs += 1;
+            flush_failed += r.flush_failed as u64;
+            for o in &r.ops {
+                *ops.entry(o.clone()).or_default() += 1;
+            }
+            let sid = line * 3 + entry;
+            // level B's prediction of the final directory, files in name order (byte-sized runs only)
+            if !r.json && !r.tie {
+                let mut want: Vec<(i64, Vec<i64>)> = case["files"].as_array().unwrap().iter().map(|f| {
+                    let mut t: Vec<i64> = f["syn"].as_array().unwrap().iter().map(|x| x.as_i64().unwrap()).collect();
+                    t.extend(f["uns"].as_array().unwrap().iter().map(|x| x.as_i64().unwrap()));
+                    (f["n"].as_i64().unwrap(), t)
+                }).collect();
+                want.sort();
+                let want: Vec<Vec<i64>> = want.into_iter().map(|x| x.1).collect();
+                if want != r.final_tokens {
+                    pred_mismatch += 1;
+                    if mismatches.len() < 5 {
+                        mismatches.push(json!({"sid": sid, "entry": entries[entry], "expected": want, "actual": r.final_tokens, "case": case, "trace": r.trace}));
+                    }
+                }
+            }
+            let max_size = if !r.json { case["maxSize"].as_u64().unwrap() as usize } else { match case["maxSize"].as_u64().unwrap() { 1 => 1, 8 => 2 * JSON_LEN + 2, _ => 100_000 } };
+            let w = if r.json { &mut tj } else { &mut tb };
+            writeln!(w, "{}", json!({"ev": "reset", "sid": sid, "maxFiles": case["maxFiles"], "maxSize": max_size})).unwrap();
+            for e in &r.trace {
+                writeln!(w, "{}", e).unwrap();
+            }
+            index.push(json!({"sid": sid, "line": line, "entry": entries[entry], "events": r.trace.len()}));
+        }
+        writeln!(tb, "{}", json!({"ev": "fin"})).unwrap();
+        writeln!(tj, "{}", json!({"ev": "fin"})).unwrap();
+        tb.flush().unwrap();
+        tj.flush().unwrap();
+        std::fs::write(&args[4], serde_json::to_string(&json!({"runs": runs, "flush_failed": flush_failed, "skipped_period_change": skipped,
+            "prediction_mismatch": pred_mismatch, "mismatches": mismatches, "ops": ops, "index": index, "entries": entries})).unwrap()).unwrap();
     }
 }
